@@ -380,7 +380,6 @@ def case_flow(ctx, c):
     venv, vrep, verr = gen_variances(g, nt, vcls)
     rname, rng = gen_rng(g)
     mcls = "%s/%s" % (M["kind"], "trait labels" if M["trait"] is not None else "no trait labels")
-    pcls = "names: %s; groups: %s" % (P["names"], P["groups"])
     ctx.case("flow:%s | %s" % (M["kind"], vcls), raw, pg.taxa, pg.taxa_grp, M["beta"], M["u_a"], M["u_d"],
              nenv, nrep, repr(venv), repr(vrep), repr(verr), trivial=(n < 2 or sum(nrep) < 2))
     for k_, v_ in (("taxon names", P["names"]), ("groups", P["groups"]), ("ploidy", P["ploidy"]), ("rng", rname),
@@ -497,7 +496,7 @@ def case_flow(ctx, c):
         ctx.raised("MeanPhenotypicBreedingValue.estimate (%s)" % ecls, e); return
     ctx.hook("MeanPhenotypicBreedingValue.estimate calls")
     kcls = ecls if "all missing" in ecls else "group labels present or group column not named"
-    res = judge_estimate(ctx, bv, gt, means, fgroups, tr, colscale, kcls, gcls, coords, wit)
+    judge_estimate(ctx, bv, gt, means, fgroups, tr, colscale, kcls, gcls, coords, wit)
     # ---- invariance to the row order of the table
     fr2 = fr.iloc[g.permutation(len(fr))]
     if g.random() < 0.5:
